@@ -101,9 +101,17 @@ func stateEnumBodyEnded(s *Scanner, c byte) *jerr.JApiError {
 	}
 }
 
-func (s *Scanner) readEnumWithJsc() (uint, *jerr.JApiError) {
+func (s *Scanner) readEnumWithJsc() (l uint, je *jerr.JApiError) {
 	fc := s.file.Content()
 	file := fs.NewFile("", fc.Slice(s.curIndex, bytes.Index(fc.Len()-1)))
+
+	// The length computation of the schema library indexes past the end of the data
+	// when the enum is followed by an unclosed "/*" annotation.
+	defer func() {
+		if r := recover(); r != nil {
+			l, je = 0, s.japiError("Invalid enum body", s.curIndex)
+		}
+	}()
 
 	l, err := enum.FromFile(file).Len()
 	if err != nil {
